@@ -392,3 +392,108 @@ func checkIndexResultGuarded(r *Reporter, p *Prog, rule string, pkgs []string) {
 		r.Pass(rule, strings.Join(pkgs, ","), "-", "no slice bound or index is the result of an Index/LastIndex search")
 	}
 }
+
+// checkErrorConstructorsNonNil: the path engine treats the result of ierrors.New / Errorf / Wrap / Wrapf /
+// WithMessage / WithMessagef as a non-nil error (a helper that returns one of them "failed", the caller's
+// err == nil edge is not taken after it). That is a fact about hive.go/ierrors, checked here on the
+// bodies: every result is fmt.Errorf(...) or errors.New(...), possibly handed through one unexported
+// function of the package that returns nil only for nil.
+func checkErrorConstructorsNonNil(r *Reporter, p *Prog) {
+	const rule = "trust/error-constructors-non-nil"
+	pk := p.Pkg("ierrors")
+	if pk == nil || len(pk.Syntax) == 0 {
+		r.Unresolved(rule, "ierrors", "package not loaded with syntax (the path engine relies on its constructors)")
+		return
+	}
+	info := pk.TypesInfo
+	di := p.decls()
+	// an unexported pass-through: nil only on the edge on which its parameter is nil
+	passesThrough := func(fd *ast.FuncDecl) bool {
+		if fd == nil || fd.Body == nil || fd.Type.Params.NumFields() != 1 || len(fd.Type.Params.List[0].Names) != 1 {
+			return false
+		}
+		po := info.Defs[fd.Type.Params.List[0].Names[0]]
+		f := newFuncCFGPlain(p, info, fd.Body, "")
+		nilParam, _ := f.CondEdges(func(e ast.Expr) bool {
+			x, nonNilOnTrue, isTest := nilTest(info, e)
+			return isTest && !nonNilOnTrue && objOfIdent(info, x) == po
+		})
+		ok := true
+		for _, rpt := range f.FindOwn(func(n ast.Node) bool { _, isRet := n.(*ast.ReturnStmt); return isRet }) {
+			rs := f.nodeAt(rpt).(*ast.ReturnStmt)
+			if len(rs.Results) != 1 {
+				ok = false
+				continue
+			}
+			if isNil(info, rs.Results[0]) {
+				if _, only := f.OnlyThroughEdges(rpt, nilParam); !only {
+					ok = false
+				}
+			}
+		}
+		return ok
+	}
+	var isFresh func(e ast.Expr, depth int) bool
+	isFresh = func(e ast.Expr, depth int) bool {
+		c, ok := ast.Unparen(e).(*ast.CallExpr)
+		if !ok || depth <= 0 {
+			return false
+		}
+		switch qualifiedCallee(info, c) {
+		case "fmt.Errorf", "errors.New":
+			return true
+		}
+		if fn := staticCallee(info, c); fn != nil && len(c.Args) == 1 {
+			if cd := di.byFunc[fn.Origin()]; cd != nil && di.infoOf[cd] == info && !cd.Name.IsExported() && passesThrough(cd) {
+				return isFresh(c.Args[0], depth-1)
+			}
+			if cd := di.byFunc[fn.Origin()]; cd != nil && di.infoOf[cd] == info && !cd.Name.IsExported() {
+				// a constructor of the package's own error type
+				allNew := cd.Body != nil
+				ast.Inspect(cd.Body, func(n ast.Node) bool {
+					if rs, isRet := n.(*ast.ReturnStmt); isRet {
+						for _, res := range rs.Results {
+							if u, isAddr := ast.Unparen(res).(*ast.UnaryExpr); !isAddr || u.Op != token.AND {
+								allNew = false
+							}
+						}
+					}
+					return true
+				})
+				return allNew
+			}
+		}
+		return false
+	}
+	for _, name := range []string{"New", "Errorf", "Wrap", "Wrapf", "WithMessage", "WithMessagef"} {
+		fd := p.FuncDecl("ierrors", "", name)
+		key := "ierrors." + name
+		if fd == nil || fd.Body == nil {
+			r.Unresolved(rule, key, "function not found")
+			continue
+		}
+		n, bad := 0, ""
+		ast.Inspect(fd.Body, func(nd ast.Node) bool {
+			if _, isLit := nd.(*ast.FuncLit); isLit {
+				return false
+			}
+			rs, ok := nd.(*ast.ReturnStmt)
+			if !ok || len(rs.Results) != 1 {
+				return true
+			}
+			n++
+			if !isFresh(rs.Results[0], 3) && bad == "" {
+				bad = p.posStr(rs.Pos()) + ": " + name + " can return something other than a freshly made error (" + exprKey(rs.Results[0]) + "): the path engine would take a failure for a success or prune a feasible path"
+			}
+			return true
+		})
+		switch {
+		case n == 0:
+			r.Fail(rule, key, p.posStr(fd.Pos()), "no return found (vacuous)")
+		case bad != "":
+			r.Fail(rule, key, p.posStr(fd.Pos()), bad)
+		default:
+			r.Pass(rule, key, p.posStr(fd.Pos()), fmt.Sprintf("%d return(s), each a freshly made error", n))
+		}
+	}
+}
